@@ -23,7 +23,7 @@ fn check(a: i64, op: ArithmeticOp, b: i64) {
     }
 }
 
-// @vt prop=C20 tier=quick bound="+ and - on every pair of i64" outside="float operands (rounding); the duplicate evaluator in sql/predicate.rs (private)" timeout=900
+// @vt prop=C20 tier=quick bound="+ and - on every pair of i64" outside="float operands (rounding); the duplicate evaluator in sql/predicate.rs (private)" timeout=1800
 vt_proof! { unwind = 2; fn c20_integer_add_sub_all_pairs() {
     let a: i64 = kani::any(); let b: i64 = kani::any();
     let plus: bool = kani::any();
@@ -31,7 +31,7 @@ vt_proof! { unwind = 2; fn c20_integer_add_sub_all_pairs() {
     if plus { check(a, ArithmeticOp::Plus, b) } else { check(a, ArithmeticOp::Minus, b) }
 }}
 
-// @vt prop=C20 tier=quick bound="* on every i64 times every i16-range multiplier (symbolic 64x64-bit multiplication does not terminate in CBMC), / of every i64 by every divisor in -3..=3 (incl. 0 and i64::MIN / -1)" outside="multipliers outside the i16 range; other divisors" timeout=1200 mem=16
+// @vt prop=C20 tier=quick bound="* on every i64 times every i16-range multiplier (symbolic 64x64-bit multiplication does not terminate in CBMC), / of every i64 by every divisor in -3..=3 (incl. 0 and i64::MIN / -1)" outside="multipliers outside the i16 range; other divisors" timeout=1800 mem=16
 vt_proof! { unwind = 2; fn c20_integer_mul_div_bounded() {
     let a: i64 = kani::any(); let b: i64 = kani::any();
     let mul: bool = kani::any();
@@ -42,7 +42,7 @@ vt_proof! { unwind = 2; fn c20_integer_mul_div_bounded() {
     if mul { check(a, ArithmeticOp::Multiply, b) } else { check(a, ArithmeticOp::Divide, b) }
 }}
 
-// @vt prop=C20 tier=quick bound="NULL or non-numeric operands: Null/Text with any operator" outside="-" timeout=600
+// @vt prop=C20 tier=quick bound="NULL or non-numeric operands: Null/Text with any operator" outside="-" timeout=1800
 vt_proof! { unwind = 2; fn c20_arithmetic_null_in_null_out() {
     let a: i64 = kani::any(); let k: u8 = kani::any(); kani::assume(k < 4);
     let op = match k { 0 => ArithmeticOp::Plus, 1 => ArithmeticOp::Minus, 2 => ArithmeticOp::Multiply, _ => ArithmeticOp::Divide };
